@@ -195,7 +195,7 @@ class Ctx:
         # locals bound to what an iterator with a proved yield range hands out (YIELD_RANGE): `for x in it`, `for (i, x) in
         # it.enumerate()`, `if let / while let / match Some(x) = it.next()`
         self.yielded = {}
-        if YIELD_RANGE:
+        if True:
             for n in nodes:
                 try:
                     fl = hir.for_loop(n) if n.get("k") == "match" and n.get("src") == "ForLoopDesugar" else None
@@ -203,6 +203,15 @@ class Ctx:
                     fl = None
                 if fl:
                     self._bind_yield(fl[0], hir.simp(fl[1]).get("ty"))
+                    rg = hir.simp(hir.peel(fl[1]))
+                    if rg.get("k") == "struct" and hir.last_seg((rg.get("path") or {}).get("path")) == "Range" and fl[0].get("k") == "pbind" \
+                            and "sub" not in fl[0]:
+                        # `for i in a..b`: i is in [a, b-1]
+                        fs = {x["name"]: x["e"] for x in rg.get("fields", [])}
+                        lo_ = interval(fs.get("start"), self, {}) if fs.get("start") is not None else None
+                        hi_ = interval(fs.get("end"), self, {}) if fs.get("end") is not None else None
+                        if lo_ is not None and hi_ is not None:
+                            self.yielded[(fl[0]["name"], fl[0].get("id"))] = (lo_[0], hi_[1] - 1)
                 pats, init = [], None
                 if n.get("k") == "letexpr":
                     pats, init = [n["pat"]], n.get("init")
